@@ -14,7 +14,7 @@ from pyvc.units import Setup, Unit
 
 def ct_setup(ctx):
     orig_kind = ["text", "dash", "dict-object", "int-object"][ctx.choose(4, "value-kind")]
-    loaded_kind = ["same", "dict-from-config-file", "loader-error"][ctx.choose(3, "parse_value_or_config")] if orig_kind in ("text", "dash") else "same"
+    loaded_kind = ["same", "dict-from-config-file", "list-from-config-file", "loader-error"][ctx.choose(4, "parse_value_or_config")] if orig_kind in ("text", "dash") else "same"
     first = ["accepts", "ValueError", "ValueError-from-PathError", "TypeError"][ctx.choose(4, "first-attempt")]
     second = ["accepts", "ValueError"][ctx.choose(2, "second-attempt")]
     enable_path = ctx.choose(2, "enable_path") == 1
@@ -23,8 +23,8 @@ def ct_setup(ctx):
     cfg_prev = ["no-cfg", "cfg-with-previous-value", "cfg-without"][ctx.choose(3, "cfg")]
     text = "-" if orig_kind == "dash" else z3.String("value")
     orig = {"text": text, "dash": text, "dict-object": {"a": 1}, "int-object": z3.Int("value")}[orig_kind]
-    config_path = Rec("Path", attrs={"tag": "config file"}) if loaded_kind == "dict-from-config-file" else None
-    loaded = {"a": 1, "__path__": config_path} if loaded_kind == "dict-from-config-file" else orig
+    config_path = Rec("Path", attrs={"tag": "config file"}) if loaded_kind in ("dict-from-config-file", "list-from-config-file") else None
+    loaded = {"a": 1, "__path__": config_path} if loaded_kind == "dict-from-config-file" else ["item.txt"] if loaded_kind == "list-from-config-file" else orig
     default_obj = Rec("Namespace", attrs={"tag": "THE-ACTION-DEFAULT"}, methods={"__getitem__": lambda c, s_, a, k: "pkg.DefaultClass"}) if default_is_spec else None
     prev_in_cfg = Rec("Namespace", attrs={"tag": "previous value from cfg"})
     adapted1, adapted2 = (Rec(n, methods={"__setitem__": lambda c, s_, a, k: s_.attrs.__setitem__(a[0], a[1])}) for n in ("adapted-1", "adapted-2"))
